@@ -151,6 +151,7 @@ type Violation struct {
 }
 
 type Ctx struct {
+	kept       map[string]*keptOp // the operation parsed when a query text first came up, and the root it saw last (keptCheck)
 	Prop       string
 	Dir        string
 	Tier       string
@@ -214,7 +215,11 @@ func (c *Ctx) addViolation(v Violation) {
 	if v.Key == "" {
 		switch v.Kind {
 		case "panic", "crash", "timeout":
-			v.Key = v.Kind + ":" + msgClass(v.Why)
+			// the function in which it happened is part of the key: the first failures of a kind do not use up the room of others
+			v.Key = v.Kind + ":" + msgClass(v.Why) + ":" + lastFunc(v.Query)
+			if v.Data != nil && v.Data.T == "cyc" {
+				v.Key += ":cyclic-" + v.Data.K
+			}
 		case "errdata":
 			v.Key = v.Kind
 		default:
@@ -399,6 +404,7 @@ func (c *Ctx) do(cs Case, isolated bool) Outcome {
 		o = runChild(line)
 	} else {
 		o = runCase(cs.Q, buildAny(cs.D))
+		c.keptCheck(cs, o)
 	}
 	c.impl.WriteString(o.Line())
 	c.impl.WriteByte('\n')
@@ -457,6 +463,79 @@ func (c *Ctx) do(cs Case, isolated bool) Outcome {
 		}
 	}
 	return o
+}
+
+// keptCheck: every query text is parsed once per run and that operation is kept; each case is evaluated with the kept operation as
+// well (on a separately built copy of the document, put into the root object of the previous case when that is a map or pointer of the
+// same type - same identity, new content) and the answer compared with the one of the fresh parse. The same text comes
+// round with many documents in the deterministic blocks, so anything an operation remembers from an earlier document - the value
+// of a `$` argument or of a nested group, a sub-query parsed once, a short-circuit position - shows as a difference.
+type keptOp struct {
+	op   mpath.Operation
+	last any
+}
+
+func (c *Ctx) keptCheck(cs Case, fresh Outcome) {
+	switch fresh.Class {
+	case "PANIC", "PARSE-PANIC", "TIMEOUT", "PARSE-ERR", "NEITHER":
+		return
+	}
+	if c.kept == nil {
+		c.kept = map[string]*keptOp{}
+	}
+	k, seen := c.kept[cs.Q]
+	if !seen {
+		if len(c.kept) >= 40000 {
+			return
+		}
+		p, err := mpath.ParseString(cs.Q)
+		if err != nil {
+			p = nil
+		}
+		k = &keptOp{op: p}
+		c.kept[cs.Q] = k
+	}
+	if k.op == nil {
+		return
+	}
+	// the document of this case is put INTO the root object the kept operation saw last time when that is possible (a map or a
+	// pointer of the same type: same identity, new content), otherwise it is passed as it is
+	nd := buildAny(cs.D)
+	use := nd
+	if k.last != nil && nd != nil {
+		lv, nv := reflect.ValueOf(k.last), reflect.ValueOf(nd)
+		if lv.Type() == nv.Type() {
+			switch lv.Kind() {
+			case reflect.Map:
+				if !lv.IsNil() && !nv.IsNil() {
+					for _, key := range lv.MapKeys() {
+						lv.SetMapIndex(key, reflect.Value{})
+					}
+					for _, key := range nv.MapKeys() {
+						lv.SetMapIndex(key, nv.MapIndex(key))
+					}
+					if lv.Len() == nv.Len() { // (a NaN key can be neither deleted nor overwritten)
+						use = k.last
+						c.Extra["kept_operation_same_root"] = asInt(c.Extra["kept_operation_same_root"]) + 1
+					}
+				}
+			case reflect.Pointer:
+				if !lv.IsNil() && !nv.IsNil() && lv.Elem().CanSet() {
+					lv.Elem().Set(nv.Elem())
+					use = k.last
+					c.Extra["kept_operation_same_root"] = asInt(c.Extra["kept_operation_same_root"]) + 1
+				}
+			}
+		}
+	}
+	k.last = use
+	got := evalOp(k.op, use)
+	c.Extra["kept_operation_checks"] = asInt(c.Extra["kept_operation_checks"]) + 1
+	if got.Line() != fresh.Line() {
+		c.addViolation(Violation{Kind: "stale-state", Query: cs.Q, QueryHex: hx(cs.Q), Data: cs.D, Expected: trunc(fresh.Line(), 300), Got: trunc(got.Line(), 300),
+			Why: "the operation parsed when this query text first came up in the run, evaluated on this document, answers differently from a freshly parsed copy of the query", Cls: cs.Cls,
+			Key: "stale-state:kept:" + lastFunc(cs.Q)})
+	}
 }
 
 func trunc(s string, n int) string {
